@@ -985,6 +985,11 @@ def list_method(ex, l, name, args, kwargs, st, node):
         raise Unsupported(f"list.{name}")
 
 
+def str_format_fn(n):
+    """'{} {}'.format(a, b) on strings: an uninterpreted function of the format string and the arguments"""
+    return z3.Function(f"StrFormat{n}", *([z3.StringSort()] * (n + 1)), z3.StringSort())
+
+
 StrLower = z3.Function("StrLower", z3.StringSort(), z3.StringSort())
 StrIsIdent = z3.Function("StrIsIdent", z3.StringSort(), z3.BoolSort())
 
@@ -999,10 +1004,25 @@ def str_method(ex, s, name, args, kwargs, st, node):
         yield st, Val(STR, StrLower(s.v))
     elif name == "isidentifier":
         yield st, boolv(StrIsIdent(s.v))
+    elif name == "format" and args and all(isinstance(a, Val) and isinstance(a.t, TStr) for a in args) and not kwargs:
+        yield st, Val(STR, str_format_fn(len(args))(s.v, *[a.v for a in args]))
     elif name == "format":
         yield st, Val(STR, z3.String(fresh_name("fmt")))
     elif name == "replace" and len(args) == 2:
         yield st, Val(STR, z3.Replace(s.v, args[0].v, args[1].v)) if False else Val(STR, z3.String(fresh_name("repl")))
+    elif name == "split" and len(args) == 2 and isinstance(args[0].t, TStr) and z3.is_int_value(z3.simplify(args[1].v)) \
+            and z3.simplify(args[1].v).as_long() == 1:
+        # s.split(sep, 1): one part if sep does not occur, else (before, after) the first occurrence
+        sep = args[0].v
+        i = z3.IndexOf(s.v, sep, 0)
+        has = z3.Contains(s.v, sep)
+        before = z3.SubString(s.v, 0, i)
+        after = z3.SubString(s.v, i + z3.Length(sep), z3.Length(s.v) - i - z3.Length(sep))
+        seq = z3.If(has, z3.Concat(z3.Unit(before), z3.Unit(after)), z3.Unit(s.v))
+        r = st.new_ref("list")
+        out = Val(TList(STR), r)
+        heapops.list_write(st.heap, out, seq)
+        yield st, out
     elif name == "join":
         yield st, Val(STR, z3.String(fresh_name("join")))
     elif name == "strip":
